@@ -75,7 +75,7 @@ Definition ex_history : list hitem :=
     HStep (CAccess IndexOnlyFullTrees Index [] [2%N]);
     HStep (CWrite Index 8%N false (ex_content (Index, 8%N)));
     HStep (CWrite Snapshot 7%N false (ex_content (Snapshot, 7%N)));
-    HStep (CAccess SnapFromStrPrefix Snapshot [] [7%N]) ].
+    HStep (CAccess StreamAll Snapshot [] [7%N]) ].
 
 Example ex_commands :
   forallb good_item ex_history = true /\
@@ -116,4 +116,16 @@ Proof.
   cbv zeta. split; [vm_compute; reflexivity|]. split.
   - intros i n H. simpl in H. destruct H as [H|[H|[]]]; inv H; vm_compute; eauto.
   - split; [vm_compute; reflexivity|]. split; vm_compute; reflexivity.
+Qed.
+
+(* the steps of ex_history are steps of forget, backup and prune *)
+Example ex_cmd_items : Forall cmd_item ex_history.
+Proof.
+  unfold ex_history.
+  repeat (constructor;
+          [first [ reflexivity
+                 | exists CmdForgetAll; split; vm_compute; reflexivity
+                 | exists CmdBackup; split; vm_compute; reflexivity
+                 | exists CmdPrune; split; vm_compute; reflexivity ] |]).
+  constructor.
 Qed.
